@@ -612,6 +612,8 @@ def _gen_vmat(rng, single, maxdig):
 def _gen_vcase(rng):
     width = rng.choice([12, 14, 16, 16, 20, 23, 24, 26, 40])
     perline = rng.randint(1, min(6, 80 // width))
+    if rng.random() < 0.12:
+        width, perline = 16, 5  # the reader's default format
     single = rng.random() < 0.4
     maxdig = min(width - 8, 20)
     return {"perline": perline, "width": width, "useD": rng.random() < 0.4, "lead1P": rng.random() < 0.6,
@@ -665,8 +667,23 @@ def _text_mutations(rng, text):
         out.append(("blank-line", "\n".join(lines[:k] + [""] + lines[k:])))
     out.append(("lower", text.lower()))
     import re as _re
-    out.append(("no-format", "\n".join(ln[:40] if _re.match(r"^[ \-0-9]{32}.{8}\S", ln) else ln for ln in lines)))
+    titles = [ln for ln in lines if _re.match(r"^[ \-0-9]{32}.{8}\S", ln)]
+    if titles and all(_re.match(r"^(1P,)?5[ED]16\.\d+$", ln[40:].strip().upper()) for ln in titles):
+        # (only where the announced format *is* the default: cutting it elsewhere makes the file garbage)
+        out.append(("no-format", "\n".join(ln[:40] if ln in titles else ln for ln in lines)))
     out.append(("title-blanks", "\n".join(ln + "   " if _re.match(r"^[ \-0-9]{32}.{8}\S", ln) else ln for ln in lines)))
+    # the row field of a *later* column header of a sparse layout is never evaluated by the reader
+    first, l2, hit = True, [], False
+    for ln in lines:
+        if _re.match(r"^[ \-0-9]{32}.{8}\S", ln):
+            first = True
+        elif _re.match(r"^[ 0-9]{8}       0[ 0-9]{8}$", ln):
+            if not first:
+                ln, hit = ln[:8] + "     abc" + ln[16:], True
+            first = False
+        l2.append(ln)
+    if hit:
+        out.append(("later-r-garbage", "\n".join(l2)))
     return out
 
 
@@ -1101,7 +1118,7 @@ def correspondence(ctx):
                                 "avar:no-1P", "avar:D-format", "avar:3-digit-exponent", "avar:underflow-to-zero",
                                 "avar:overflow-to-inf", "avar:adjacent-strings", "avar:all-zero-matrix",
                                 "avar:perline-1", "stream:amut", "amut:cut", "amut:cut-noeol", "amut:blank-line",
-                                "amut:lower", "amut:no-format", "amut:title-blanks", "amut:defaults-used",
+                                "amut:lower", "amut:no-format", "amut:title-blanks", "amut:later-r-garbage", "amut:defaults-used",
                                 "amut:rejected", "amut:accepted", "stream:afld", "afld:ValueError", "afld:value",
                                 "stream:aint", "aint:ValueError", "aint:value", "stream:avals", "avals:ValueError", "avals:complex",
                                 "stream:ablk", "ablk:dformat", "ablk:partial-last-line", "ablk:short-file"])
